@@ -197,9 +197,10 @@ func Execute(
 		for i := 1; i < attempt; i++ {
 			multiplier *= config.BackoffFactor
 		}
-		backoff := time.Duration(float64(config.InitialBackoff) * multiplier)
-		if backoff > config.MaxBackoff {
-			backoff = config.MaxBackoff
+		// Cap in the float domain: InitialBackoff x Factor^(k-1) can exceed what a Duration holds.
+		backoff := config.MaxBackoff
+		if scaled := float64(config.InitialBackoff) * multiplier; scaled < float64(config.MaxBackoff) {
+			backoff = time.Duration(scaled)
 		}
 
 		// Wait before retry
